@@ -27,10 +27,12 @@ Lemma Inv_store_gen : forall s d ls ln lc, Inv s -> Valid s d ->
   sorted ls -> sorted ln -> sorted lc ->
   below ls (s_next s + 1) -> below ln (s_next s + 1) -> below lc (s_next s + 1) ->
   (forall a, get (upd_class d (s_class s)) [a] = None -> nolog ls ln lc a) ->
+  (forall a, is_sys a = true -> get (upd_class d (s_class s)) [a] <> None ->
+             has_store (upd_store (d_store d) (s_store s)) a = true) ->
   Inv (mkSt (s_next s + 1) (upd_class d (s_class s)) (upd_nonce d (s_nonce s)) (upd_dh (s_next s) d (s_dh s))
             (upd_store (d_store d) (s_store s)) (upd_decl (s_next s) d (s_decl s)) ls ln lc).
 Proof.
-  intros s d ls ln lc I Vd S1 S2 S3 B1 B2 B3 NL. destruct I, Vd.
+  intros s d ls ln lc I Vd S1 S2 S3 B1 B2 B3 NL SY. destruct I, Vd.
   constructor; simpl; auto.
   - unfold upd_class. repeat apply sorted_fold_put. auto.
   - unfold upd_nonce. repeat apply sorted_fold_put. auto.
@@ -145,9 +147,92 @@ Qed.
 Lemma keqb2_fst : forall a k x y, keqb [a; k] [x; y] = true -> a = x.
 Proof. intros. apply keqb_eq in H. inversion H. auto. Qed.
 
-Lemma Inv_store_new : forall s d, Inv s -> Valid s d -> Inv (store_new s d).
+(* ---------- the system-contract steps under the guard ---------- *)
+Lemma find_app_none : forall {A} (p : A -> bool) l1 l2, find p (l1 ++ l2) = None -> find p l1 = None /\ find p l2 = None.
+Proof. intros. rewrite find_app in H. destruct (find p l1); [discriminate | auto]. Qed.
+
+(* writes that do not name address a leave its storage as it is *)
+Lemma has_store_untouched : forall d m a, sorted m -> touched d a = false ->
+  has_store m a = true -> has_store (upd_store (d_store d) m) a = true.
 Proof.
-  intros. unfold store_new. pose proof H as I. destruct I. apply Inv_store_gen; auto.
+  intros d m a S T H. apply has_store_iff in H; auto. destruct H as [k [v [G P]]].
+  apply has_store_iff; [apply sorted_upd_store; auto|]. exists k, v. split; auto.
+  rewrite get_upd_store by auto.
+  destruct (find (fun e => keqb k (skey e)) (d_store d)) eqn:F; auto.
+  apply find_key_some in F. destruct F as [K Hin]. subst. unfold skey in P. rewrite has_prefix_2 in P.
+  apply N.eqb_eq in P. subst. rewrite (touched_in _ _ Hin) in T. discriminate.
+Qed.
+
+(* a system contract that exists after the block has a non-empty storage (under the guard) *)
+Lemma sys_after : forall s d a, Inv s -> VS s d -> is_sys a = true ->
+  get (upd_class (with_sys (s_class s) d) (s_class s)) [a] <> None ->
+  has_store (upd_store (d_store d) (s_store s)) a = true.
+Proof.
+  intros s d a I V Ha Hc. destruct (touched d a) eqn:T.
+  - apply (vs_guard _ _ V); auto.
+  - apply has_store_untouched; auto; [apply (i_s4 _ I)|]. apply (i_sys _ I); auto.
+    rewrite get_upd_class in Hc. cbn [with_sys d_deploy d_replace] in Hc.
+    destruct (find (fun e => keqb [a] [fst e]) (d_replace d)) eqn:F1.
+    + apply find_key_some in F1. destruct F1 as [K Hin]. inversion K; subst.
+      apply (v_replace _ _ (vs_valid _ _ V)). auto.
+    + rewrite find_app in Hc.
+      destruct (find (fun e => keqb [a] [fst e]) (sys_new (s_class s) d)) eqn:F2.
+      * apply find_key_some in F2. destruct F2 as [K Hin]. inversion K; subst.
+        apply in_sys_new in Hin. destruct Hin as [_ Hin]. apply in_sys_missing in Hin. destruct Hin as [_ [Ht _]]. congruence.
+      * destruct (find (fun e => keqb [a] [fst e]) (d_deploy d)) eqn:F3; auto.
+        apply find_key_some in F3. destruct F3 as [K Hin]. inversion K; subst.
+        rewrite (vs_dep _ _ V _ Hin) in Ha. discriminate.
+Qed.
+
+(* commit() removes nothing *)
+Lemma sys_gone_nil : forall s d, VS s d ->
+  filter (fun a => touched d a && negb (has_store (upd_store (d_store d) (s_store s)) a)) sys_addrs = [].
+Proof.
+  intros. apply filter_nil. intros a Ha. apply is_sys_in in Ha.
+  destruct (touched d a) eqn:T; auto. rewrite (vs_guard _ _ H a Ha T). auto.
+Qed.
+
+Definition lstore_new (s : st) (d : diff) : smap N :=
+  foldd (fun e m => put [fst (fst e); snd (fst e); s_next s] (snd e) m) (d_store d) (s_lstore s).
+Definition lnonce_new (s : st) (d : diff) : smap N :=
+  foldd (fun e m => put [fst e; s_next s] (snd e) m) (d_nonce d) (s_lnonce s).
+Definition lclass_new (s : st) (d : diff) : smap N :=
+  foldd (fun e m => put [fst e; s_next s] (snd e) m) (d_deploy d)
+    (foldd (fun e m => put [fst e; s_next s] (snd e) m) (d_replace d) (s_lclass s)).
+
+Lemma store_new_eq : forall s d, VS s d -> store_new s d =
+  let dx := with_sys (s_class s) d in
+  mkSt (s_next s + 1) (upd_class dx (s_class s)) (upd_nonce dx (s_nonce s)) (upd_dh (s_next s) dx (s_dh s))
+       (upd_store (d_store d) (s_store s)) (upd_decl (s_next s) d (s_decl s))
+       (lstore_new s d) (lnonce_new s d) (lclass_new s d).
+Proof. intros. unfold store_new. rewrite (sys_gone_nil s d H). reflexivity. Qed.
+
+(* the history entries a block writes never concern an address that does not exist after it *)
+Lemma nolog_after : forall s d a, Inv s -> VS s d ->
+  get (upd_class (with_sys (s_class s) d) (s_class s)) [a] = None ->
+  find (fun e => keqb [a] [fst e]) (d_replace d) = None /\ find (fun e => keqb [a] [fst e]) (d_deploy d) = None /\
+  find (fun e => keqb [a] [fst e]) (d_nonce d) = None /\
+  (forall k, find (fun e => keqb [a; k] [fst (fst e); snd (fst e)]) (d_store d) = None) /\
+  nolog (s_lstore s) (s_lnonce s) (s_lclass s) a.
+Proof.
+  intros s d a I V Ha. apply upd_class_none in Ha. cbn [with_sys d_deploy d_replace] in Ha.
+  destruct Ha as [F1 [F2 Hc]]. pose proof F2 as F2'. apply find_app_none in F2. destruct F2 as [F2a F2b].
+  assert (ND : inkeys (d_deploy (with_sys (s_class s) d)) a = false) by (apply find_inkeys_none; auto).
+  split; auto. split; auto. split; [|split].
+  - destruct (find (fun e => keqb [a] [fst e]) (d_nonce d)) eqn:F; auto.
+    apply find_key_some in F. destruct F as [K Hin]. inversion K; subst.
+    destruct (v_nonce _ _ (vs_valid _ _ V) _ Hin); [contradiction | congruence].
+  - intros k. destruct (find _ (d_store d)) eqn:F; auto.
+    apply find_some in F. destruct F as [Hin K]. apply keqb2_fst in K. subst.
+    destruct (v_store _ _ (vs_valid _ _ V) _ Hin); [contradiction | congruence].
+  - apply (i_nolog _ I); auto.
+Qed.
+
+Lemma Inv_store_new : forall s d, Inv s -> VS s d -> Inv (store_new s d).
+Proof.
+  intros s d H V. rewrite store_new_eq by auto. cbv zeta. pose proof H as I. destruct I.
+  apply (Inv_store_gen s (with_sys (s_class s) d)); auto.
+  - apply (vs_valid _ _ V).
   - apply sorted_fold_put; auto.
   - apply sorted_fold_put; auto.
   - repeat apply sorted_fold_put; auto.
@@ -155,19 +240,12 @@ Proof.
   - apply (below_fold_put (fun e => [fst e])); [lia|]. eapply below_mono; [|eauto]. lia.
   - apply (below_fold_put (fun e => [fst e])); [lia|]. apply (below_fold_put (fun e => [fst e])); [lia|].
     eapply below_mono; [|eauto]. lia.
-  - intros a Ha. apply upd_class_none in Ha. destruct Ha as [F1 [F2 Hc]].
-    destruct (i_nolog a Hc) as [N1 [N2 N3]]. destruct H0.
-    assert (ND : inkeys (d_deploy d) a = false) by (apply find_inkeys_none; auto).
+  - intros a Ha. destruct (nolog_after s d a H V Ha) as [F1 [F2 [F3 [F4 [N1 [N2 N3]]]]]].
     repeat split; intros.
-    + rewrite get_lput1. destruct (b =? s_next s); auto.
-      destruct (find (fun e => keqb [a] [fst e]) (d_nonce d)) eqn:F; auto.
-      apply find_key_some in F. destruct F as [K Hin]. inversion K; subst.
-      destruct (v_nonce _ Hin); [contradiction | congruence].
-    + rewrite !get_lput1. destruct (b =? s_next s); auto. rewrite F1, F2. destruct (_ =? _); auto.
-    + rewrite get_lput2. destruct (b =? s_next s); auto.
-      destruct (find _ (d_store d)) eqn:F; auto.
-      apply find_some in F. destruct F as [Hin K]. apply keqb2_fst in K. subst.
-      destruct (v_store _ Hin); [contradiction | congruence].
+    + unfold lnonce_new. rewrite get_lput1. destruct (b =? s_next s); auto. rewrite F3. auto.
+    + unfold lclass_new. rewrite !get_lput1. destruct (b =? s_next s); auto. rewrite F1, F2. destruct (_ =? _); auto.
+    + unfold lstore_new. rewrite get_lput2. destruct (b =? s_next s); auto. rewrite F4. auto.
+  - intros. apply (sys_after s d); auto.
 Qed.
 
 (* ---------- removing the classes a block declared ---------- *)
